@@ -6,4 +6,5 @@ let table : (string * ((Model.z list -> Model.z list) * (Model.z list -> Model.z
   ("C17", (Model.run_c17, Model.chk_c17));
   ("C15", (Model.run_c15, Model.chk_c15));
   ("C20", (Model.run_c20, Model.chk_c20));
+  ("C12", (Model.run_c12, Model.chk_c12));
 ]
